@@ -206,6 +206,10 @@ pub struct Scenario {
     pub compile: CompileState,
     /// Seed of the engine's PRNG for `Seeded` draw roles.
     pub engine_seed: u64,
+    /// Exploration depth of the oracles for this run: 0 = quick tier, 1 = thorough tier (more
+    /// removed units, more capping schedules, more noise schedules per run).
+    #[serde(default)]
+    pub depth: u32,
     /// Free-form labels describing the shape (query shape, data faults fired...) for evidence.
     pub tags: Vec<String>,
 }
